@@ -6,7 +6,7 @@ VERIF = os.path.dirname(os.path.dirname(os.path.abspath(__file__)))
 HOOK_COMMITS = ['a275b0b']
 
 ENGINES = [
- {'name': 'E-GRAM', 'path': 'engines/gram_main.cpp', 'serves_properties': ['C01', 'C02', 'C05', 'C08', 'C09', 'C11', 'C16'],
+ {'name': 'E-GRAM', 'path': 'engines/gram_main.cpp', 'serves_properties': ['C01', 'C02', 'C05', 'C08', 'C09', 'C11', 'C16', 'C18'],
   'kind_free_text': 'explicit-state exploration: enumerates every grammar inside stated bounds, injects it into a compiled instantiation of the real ctpg::parser, compares the LR(1) automaton the real analyzer builds with a reference canonical LR(1) automaton state by state, then runs the real parse() on every string up to a length bound against a reference driver'},
   {'name': 'E-RX', 'path': 'engines/rx_main.cpp', 'serves_properties': ['C03', 'C04', 'C10', 'C17'],
   'kind_free_text': 'explicit-state exploration: enumerates pattern ASTs / term sets / pattern strings inside stated bounds, drives the real regex front-end, dfa_builder and lexer loop, and explores the emitted automaton together with a reference automaton (reachable state pairs x all 256 bytes)'},
@@ -35,6 +35,9 @@ CHECKS = {
  'C05': ('exhaustive enumeration of S/R grammars x precedence/associativity assignments, resolved table and tree shapes vs documented rule',
          'Bounded exhaustive model checking: all grammars in the bounds with a shift/reduce cell, all assignments of precedence levels and associativities to the terms involved and explicit rule precedences; table compared cell by cell, then all strings parsed and grouping compared.',
          'rule[0] is indistinguishable from "no explicit precedence" in the API and is not explored.', '3 C05'),
+ 'C18': ('stateless exploration of every script of custom-lexer answers (environment-answer enumeration by choice-sequence replay) x grammars x inputs, against the documented driver',
+         'Bounded exhaustive model checking: the lexer is the environment; every answer sequence within range is enumerated depth-first for every conflict-free grammar of the custom-lexer frames and every input up to the bound.',
+         'Answers outside the stated contract (index >= number of terms, length > remaining input, length 0) are not generated.', '3 C18'),
  'C03': ('exhaustive enumeration of pattern ASTs; product-automaton reachability of the emitted DFA against a reference DFA over all 256 bytes',
          'Bounded exhaustive model checking over pattern space (AST node bound) with an unbounded verdict over input space: language equality is decided on the automata, so strings of every length are covered for each explored pattern.',
          'Broad genuine defect (in-place merge is not a determinisation): affected patterns are listed instance by instance in known/C03_instances.txt; any other failing pattern is a violation.', '3 C03'),
